@@ -616,9 +616,11 @@ func (pool *hostConnPool) connect() (err error) {
 	// add the Conn to the pool
 	verifYield("connect.dialed", conn, 0)
 	pool.mu.Lock()
-	defer pool.mu.Unlock()
 
 	if pool.closed {
+		// close the connection without the lock: if closing it reports an error, the
+		// connection calls pool.HandleError, which takes the lock (see the comment in Close)
+		pool.mu.Unlock()
 		conn.Close()
 		return nil
 	}
@@ -626,10 +628,12 @@ func (pool *hostConnPool) connect() (err error) {
 	if conn.Closed() {
 		// the connection failed after its handshake and before it got here: HandleError
 		// has already looked for it in the pool and did not find it
+		pool.mu.Unlock()
 		return ErrConnectionClosed
 	}
 
 	pool.conns = append(pool.conns, conn)
+	pool.mu.Unlock()
 
 	return nil
 }
